@@ -105,6 +105,76 @@ def fetch_guard_rules(ctx, rule='R1'):
     return fetcher, cb, g, pkv, adds, reqs
 
 
+def fetcher_unsubscribe_rules(ctx, rule):
+    """A fetch that is cut short by a disconnect unsubscribes: the fetcher registers a handler on cf.disconnected when it subscribes
+    to its port, and that handler removes the port callback (otherwise the fetcher of an aborted attempt answers the replies of the
+    next connection of the same object: duplicate requests, `connected` twice).  Shared with C02 (finding F-02f)."""
+    m = ctx.model
+    fetcher = m.cls(TOC, 'TocFetcher')
+
+    def calls_through(fn_, depth=0):
+        out = []
+        for s_ in fn_.node.body:
+            if isinstance(s_, ast.Expr) and isinstance(s_.value, ast.Call):
+                c_ = s_.value
+                if depth < 2 and isinstance(c_.func, ast.Attribute) and norm(c_.func.value) == 'self' and not c_.args and not c_.keywords and fetcher.has(c_.func.attr):
+                    out += calls_through(fetcher.method(c_.func.attr), depth + 1)
+                else:
+                    out.append(norm(c_))
+        return out
+    st_ = fetcher.method('start')
+    hooks = [c_ for c_ in walk_own(st_.node) if method_call(c_, 'add_callback') and norm(c_.func.value) == 'self.cf.disconnected' and len(c_.args) == 1 and
+             isinstance(c_.args[0], ast.Attribute) and norm(c_.args[0].value) == 'self' and fetcher.has(c_.args[0].attr)]
+    okh = len(hooks) == 1 and 'self.cf.remove_port_callback(self.port, self._new_packet_cb)' in calls_through(fetcher.method(hooks[0].args[0].attr))
+    ctx.inst(rule, st_, 'aborted-fetch-unsubscribes', okh, 'TocFetcher.start registers a cf.disconnected handler that removes the port callback')
+    xf = m.cls(PAR, '_ExtendedTypeFetcher')
+    xi = xf.method('__init__')
+    xh = [c_ for c_ in walk_own(xi.node) if method_call(c_, 'add_callback') and norm(c_.func.value) == 'self._cf.disconnected' and len(c_.args) == 1 and
+          isinstance(c_.args[0], ast.Attribute) and norm(c_.args[0].value) == 'self' and xf.has(c_.args[0].attr)]
+    okx = len(xh) == 1 and any(method_call(c_, 'remove_port_callback') and [norm(a_) for a_ in c_.args] == ['CRTPPort.PARAM', 'self._new_packet_cb']
+                                for c_ in walk_own(xf.method(xh[0].args[0].attr).node)) and \
+        any(isinstance(s2, ast.Assign) and norm(s2.targets[0]) == 'self._done_callback' and norm(s2.value) == 'None' for s2 in walk_own(xf.method(xh[0].args[0].attr).node))
+    ctx.inst(rule, xi, 'aborted-extended-fetch-unsubscribes', okx, 'the extended-type fetcher drops its port callback and its completion callback when the link goes down')
+
+
+def session_object_rules(ctx, rule):
+    """Objects that belong to one connection are new for every connection.  The extended-type fetcher keeps the table it was built
+    with, so it is built per refresh from the current self.toc (or dropped when a connection starts / ends); a connection request
+    installs a NEW Toc() - a fetcher left over from an aborted session still holds the old object and must not be able to write into
+    the table of the next session; on a cache hit the cached table is installed before completion is signalled.  Shared by C03 / C04."""
+    m = ctx.model
+    PARAM = 'cflib/crazyflie/param.py'
+    P = m.cls(PARAM, 'Param')
+    fetchers = [(mth, st_) for mth in P.methods.values() for st_ in ast.walk(mth.node)
+                if isinstance(st_, ast.Assign) and isinstance(st_.value, ast.Call) and dotted(st_.value.func) == '_ExtendedTypeFetcher']
+    ctx.need(fetchers, 'no construction of _ExtendedTypeFetcher found')
+    cr_ = P.method('_connection_requested')
+    reset_attrs = {norm(t) for s_ in walk_own(cr_.node) if isinstance(s_, ast.Assign) for t in s_.targets} | \
+        {norm(t) for s_ in walk_own(P.method('_disconnected').node) if isinstance(s_, ast.Assign) for t in s_.targets}
+    for f_, st_ in fetchers:
+        tgt = norm(st_.targets[0])
+        args = [norm(a) for a in st_.value.args]
+        gfn = cfg_of(f_)
+        nd = gfn.node_of(st_.value)
+        unguarded = nd is None or not any('%s is None' % tgt in k[0] or k[0] == tgt for k in gfn.fact_keys_at(nd))
+        ok = args == ['self.cf', 'self.toc'] and (not tgt.startswith('self.') or (tgt in reset_attrs)) and (not tgt.startswith('self.') or unguarded or tgt in reset_attrs)
+        ctx.inst(rule, f_, 'fetcher-per-connection', ok, 'every connection attempt replaces Param.toc, so a fetcher (which keeps the table it was built with) must be built per refresh '
+                 'from the current self.toc - or dropped when a connection starts/ends; built as %s = _ExtendedTypeFetcher(%s)' % (tgt, ', '.join(args)), line=st_.lineno)
+    for fn in ('_connection_requested',):
+        f = P.method(fn)
+        news = [s_ for s_ in walk_own(f.node) if isinstance(s_, ast.Assign) and norm(s_.targets[0]) == 'self.toc' and isinstance(s_.value, ast.Call) and dotted(s_.value.func) == 'Toc']
+        emptied = [norm(c) for c in walk_own(f.node) if isinstance(c, ast.Call) and isinstance(c.func, ast.Attribute) and norm(c.func.value).startswith('self.toc') and c.func.attr in ('clear',)]
+        ctx.inst(rule, f, 'new-table-object-per-session', len(news) == 1 and not emptied,
+                 'a connection request binds self.toc to a new Toc(); emptying and re-using the old object (%s) lets a fetcher of an aborted session fill the new table' % (emptied or 'no clear'))
+    tf = m.func(TOC, 'TocFetcher._new_packet_cb')
+    gtf = cfg_of(tf)
+    inst = [n for n in gtf.nodes if n.kind == 'stmt' and isinstance(n.ast, ast.Assign) and norm(n.ast.targets[0]) == 'self.toc.toc']
+    fin = [n for n, c in gtf.find(lambda q: method_call(q, '_toc_fetch_finished'))]
+    hit_fin = [n for n in fin if inst and gtf.fact_keys_at(n) == gtf.fact_keys_at(inst[0])]
+    ctx.inst(rule, tf, 'cached-table-installed-before-finished', len(inst) == 1 and len(hit_fin) == 1 and gtf.dominates(inst[0], hit_fin[0]),
+             'on a cache hit the table is stored in the holder first, then completion is signalled (connected is fired from that signal: listeners must see the table)')
+
+
 def toc_lookup_rules(ctx, rule='R8'):
     """Toc stores under [group][name]; the look-ups read the same path (shared with C04, C05)."""
     m = ctx.model
@@ -518,6 +588,7 @@ def check(ctx):
     from .c11 import cache_name_rules
     cache_name_rules(ctx, 'R10')       # cache present: only a table stored under exactly the announced CRC may be adopted
     ext_fetcher_rules(ctx, 'R11')      # persistence marker: the extended-type pass (shared with C04.R10)
+    session_object_rules(ctx, 'R11')   # ... on the table of this connection (shared with C04.R13)
     from .c11 import cache_codec_rules
     from .c07 import port_registration_rules
     port_registration_rules(ctx, 'R13')    # a finished fetcher really unregisters: port (un)registration agree on all five fields (shared with C07.R6)
@@ -560,8 +631,21 @@ def check(ctx):
     ctx.inst('R9', cb, 'download-starts-at-0', len(z) == 1 and fold_in(cb, z[0].ast.value) == 0, 'download starts at index 0')
     ff = fetcher.method('_toc_fetch_finished')
     body = [norm(s.value) for s in ff.node.body if isinstance(s, ast.Expr) and isinstance(s.value, ast.Call)]
+    def calls_through(fn_, depth=0):
+        """call texts of a method, own argument-less helpers of the class looked through"""
+        out = []
+        for s_ in fn_.node.body:
+            if isinstance(s_, ast.Expr) and isinstance(s_.value, ast.Call):
+                c_ = s_.value
+                if depth < 2 and isinstance(c_.func, ast.Attribute) and norm(c_.func.value) == 'self' and not c_.args and not c_.keywords and fetcher.has(c_.func.attr):
+                    out += calls_through(fetcher.method(c_.func.attr), depth + 1)
+                else:
+                    out.append(norm(c_))
+        return out
+    body = calls_through(ff)
     ctx.inst('R9', ff, 'finish', 'self.cf.remove_port_callback(self.port, self._new_packet_cb)' in body and body[-1] == 'self.finished_callback()',
              'finishing unregisters the packet callback and calls the completion callback last')
+    fetcher_unsubscribe_rules(ctx, 'R9')
     rt = m.func(PAR, 'Param.refresh_toc')
     rd = rt.nested('refresh_done')
     g4 = cfg_of(rd)
